@@ -128,7 +128,7 @@ class GraphGen:
             return self.data.User(
                 uuid=self.uid(),
                 username=r.choice(["alice", "bob_92", "ünï", ""]) if self.opt() else None,
-                email=r.choice(["a@example.com", "first.last@uni.ac.uk"]) if self.opt() else None,
+                email=r.choice(["a@example.com", "first.last@uni.ac.uk", "Jane.Doe@Example.org", "O'Neil+tag@Sub.Example.COM", "ÜNÏ.user@example.org"]) if self.opt() else None,
                 name=r.choice(["Alice A.", "Bob", "名前"]) if self.opt() else None,
                 institution=r.choice(["UCL", "Inst. of ✓", ""]) if self.opt() else None,
             )
